@@ -128,12 +128,12 @@ pub fn c07(o: &Opts) -> Outcome {
         }
         // several chunks, many workers, and k-mers that first appear in later chunks (met by several workers at once while merging)
         {
-            let mut recs: Vec<Vec<u8>> = (0..40).map(|_| vec![b'A'; 60]).collect();
-            recs.extend((0..1500).map(|_| vec![b'C'; 40]));
-            for round in 0..(if o.thorough { 12 } else { 3 }) {
+            let mut recs: Vec<Vec<u8>> = (0..48).map(|_| vec![b'A'; 10]).collect();
+            recs.extend((0..2000).map(|_| vec![b'C'; 10]));
+            for round in 0..(if o.thorough { 20 } else { 6 }) {
                 cases += 1;
-                if let Some(mut w) = c07_one(&recs, 12, 16, 1.28e-6, false) {
-                    for kv in w.iter_mut() { if kv.0 == "records" { kv.1 = "<40 x A^60, then 1500 x C^40>".into(); } }
+                if let Some(mut w) = c07_one(&recs, 3, 16, 1.28e-6, false) {
+                    for kv in w.iter_mut() { if kv.0 == "records" { kv.1 = "<48 x A^10, then 2000 x C^10>".into(); } }
                     w.push(("round".into(), round.to_string()));
                     return Outcome { cases, witness: Some(w) };
                 }
